@@ -1,7 +1,7 @@
 /-
   The generator plumbing of C06 as regenerated from the current source text (GenC06.lean) is the pull-based model of
   Model/Lazy.lean: the stages of `map` / `filter` / `flatMap` are the model's stream transformers, a lineage of
-  `MapPartitionsRDD.compute` calls is the model's `build`, and the result handlers of `take(n)` and `first()` - `islice` over
+  `MapPartitionsRDD.compute` calls is the model's `build`, the sampling stage pulls everything upstream whatever it draws, and the result handlers of `take(n)` and `first()` - `islice` over
   `chain.from_iterable` of the per-partition iterators - perform exactly the calls, and return exactly the values, of the
   model's `takeChain` (partition by partition, the next one touched only when the previous ones ran dry), about which
   Properties/C06.lean proves the prefix / no-later-partition / never-twice theorems.
@@ -11,6 +11,7 @@
 -/
 import PysparklingVerif.Extracted.GenC06
 import PysparklingVerif.Lemmas.LazyChain
+import PysparklingVerif.Lemmas.LazySample
 import PysparklingVerif.Properties.C06
 namespace PysparklingVerif.Extracted.C06
 open PysparklingVerif PysparklingVerif.Lazy PysparklingVerif.Gen.C06
@@ -40,6 +41,21 @@ theorem lineage_is_build {α : Type} (ops : List (LOp α)) (k : Nat) (s : LStrea
   | cons op rest ih =>
     simp only [lineage, build, compute]
     rw [stages_are_model, ih]
+
+-- OBLIGATION: PysparklingVerif.Extracted.C06.sampleStage_pulls_everything
+/-- the sampling stage as the text builds it: a full pass performs EXACTLY the calls of a full pass over its parent, in the
+same order, whatever the sampler draws; every parent output appears as often as drawn for it -/
+theorem sampleStage_pulls_everything {α : Type} (draws : List Nat) (s : LStream α) :
+    (pullAll (sampleStage draws s)).1 = (pullAll s).1 ∧
+    (pullAll (sampleStage draws s)).2 =
+      ((s.cells.map (·.value)).zipIdx.flatMap fun (v, i) => List.replicate (draws.getD i 0) v) :=
+  ⟨pullAll_lsample_events draws s, pullAll_lsample_values draws s⟩
+
+-- OBLIGATION: PysparklingVerif.Extracted.C06.sampleStage_nothing_drawn
+/-- `sample(…, 0.0)`: nothing comes out, and still every upstream call is made (no short cut) -/
+theorem sampleStage_nothing_drawn {α : Type} (s : LStream α) :
+    (pullAll (sampleStage [] s)).2 = [] ∧ (pullAll (sampleStage [] s)).1 = (pullAll s).1 :=
+  lsample_nothing s
 
 -- OBLIGATION: PysparklingVerif.Extracted.C06.takeHandler_is_takeChain
 /-- `take(n)`: `list(islice(chain.from_iterable(l), n))` is the model's `takeChain n l`, for every `n` and every list of
